@@ -26,6 +26,26 @@ CLAIMED = {
             'the max_workers=1 run; each selected file checked exactly once. Sampling, not proof.',
             'multiprocessing is abstracted to FIFO start, arbitrary completion order, pickle-by-value transport and '
             'atomic proxy requests; fork-inherited globals, manager-process death and the log funnel are outside.'),
+    'C12': ('scopeworld', 'DESIGN.md sec. 5 (C12)',
+            'deterministic simulation (history class): seeded operation histories over nested real Scope/SymbolTable/'
+            'CaseInsensitiveDict objects with simulator-chosen spelling, re-parenting and GC points, refinement-checked '
+            'step by step against a dict-chain reference model',
+            'Seeded exploration of operation histories (set/setdefault/update/get/lookup/in/del/pop/clone/'
+            're-parenting/declare/update/get_type/get_symbol_scope, mutation of returned and inserted attributes) on '
+            'forests of up to 6 tables with keys in mixed spelling; after every step the full table state, parent '
+            'links, membership and recursive look-up of every probe key are compared with the model. Sampling, not proof.',
+            'Only case-insensitive tables (the statement); plain Scope().clone() and case-sensitive tables are outside. '
+            'The harness holds strong references to every table/scope, so GC perturbation must not change any answer.'),
+    'C13': ('scopeworld', 'DESIGN.md sec. 5 (C13)',
+            'deterministic simulation (history clause): seeded histories of symbol creation, type updates, clone/rescope/'
+            'detach on shared scopes with GC perturbation; oracle = classification rule + visibility of type updates',
+            'Seeded exploration of histories over up to 5 nested scopes and 14 live symbols: creation by name (with/'
+            'without scope, type, subscripts, derived-type parent), type updates through table, Scope API, clone and '
+            'setter, rename-clones, rescoping and detaching. Checks: class of the created symbol follows the statement\'s '
+            'rule from the type recorded for the name; after an update in a scope every symbol of that name attached to '
+            'it reports the new type, unattached and unrelated symbols keep theirs. Sampling, not proof.',
+            'The inputs cross-product of the statement is covered only as far as histories draw it. Symbols attached to '
+            'descendant scopes are not judged after an update in an ancestor (the statement does not say).'),
 }
 
 NA_COMMON = ('pure function of (source text / IR, options, valuations): no scheduler, clock, fault, shared state '
